@@ -32,7 +32,8 @@ REG_ORDER = list(REGS)
 
 A_CHOICES = [None, [('a', 's', '1')], [('a', 's', '2')], [('a', 'l', ('u',))], [('a', 'l', ('u', 'v'))], [('a', 'l', ())], [('a', 's', '1'), ('a', 'l', ('u',))]]
 H_CHOICES = [None, [('h', 'i', ('h1', 's1'))], [('h', 'i', ('h2', 's1'))]]
-O_CHOICES = [None, [('o', 'o', [])], [('o', 'o', [('x', 's', '1')])], [('o', 'o', [('x', 's', '2'), ('p', 'o', [('z', 's', '1')])])]]
+O_CHOICES = [None, [('o', 'o', [])], [('o', 'o', [('x', 's', '1')])], [('o', 'o', [('x', 's', '2'), ('p', 'o', [('z', 's', '1')])])],
+             [('o', 'o', [('x', 's', 'Vv')])], [('o', 'o', [('x', 's', 'vV')])]]        # the last two differ in letter case only
 
 
 def render(entries, ind=''):
@@ -66,7 +67,7 @@ def file_nodes(entries, prefix=''):
 def universe(quick):
     A = A_CHOICES if not quick else A_CHOICES[:3] + A_CHOICES[4:6]
     H = H_CHOICES if not quick else H_CHOICES[:2]
-    O = O_CHOICES if not quick else [O_CHOICES[0], O_CHOICES[2], O_CHOICES[3]]
+    O = O_CHOICES if not quick else [O_CHOICES[0], O_CHOICES[2], O_CHOICES[3], O_CHOICES[4], O_CHOICES[5]]
     files = []
     for a, h, o in itertools.product(A, H, O):
         ent = (a or []) + (h or []) + (o or [])
